@@ -86,7 +86,7 @@ def required(tier):
             "arith_value_checks": 25000, "arith_refused_checks": 15000, "inplace_twins": 15000,
             "log_conv_checks": 1500, "log_pairs": 49, "parse_checks": 1500, "generated_offset_units": 200,
             "cell_mode_matrix": 2000, "rules_used": 40, "add_sub_branches": 9, "iadd_sub_branches": 9,
-            "modes": 4, "result_unit_definedness_checks": 20000, "redefined_offset_probes": 60, "reused_object_operations": 500}
+            "modes": 4, "result_unit_definedness_checks": 20000, "redefined_offset_probes": 60, "reused_object_operations": 500, "unit_object_operands": 500}
 
 
 def shards(tier, seed):
@@ -815,6 +815,29 @@ def run_temp(spec, rec, rng, pintload, pint, m):
             oc = env.outcome(lambda: unit * n)
             env.judge(env.table.muldiv("*", env.mq(F(1), {ln: 1}), n, auto), oc, "*", env.mq(F(1), {ln: 1}), n,
                       {"expr": f"ureg.Unit('{ln}') * {n!r}", "mode": env.mode}, extra={"form": "Unit*number"})
+        # Quantity (*, /) Unit OBJECT and the reverse: a bare unit stands for one of that unit, so every rule
+        # for products and quotients of non-multiplicative units applies unchanged
+        for ln in singles:
+            unit = ureg.Unit(ureg.UnitsContainer({ln: 1}))
+            one = env.mq(F(1) if exact else 1.0, {ln: 1})
+            for other in ({"meter": 1}, {"kelvin": 1}, {singles[rng.randrange(len(singles))]: 1}):
+                x, y = pairs[rng.randrange(len(pairs))]
+                Lm = env.mq(y, other)
+                for op in ("*", "/"):
+                    for form, lo, ro in (("Quantity.Unit", Lm, one), ("Unit.Quantity", one, Lm)):
+                        try:
+                            exp = env.table.muldiv(op, lo, ro, auto)
+                        except (ZeroDivisionError, OverflowError, ValueError):
+                            rec.count("skipped_model_domain")
+                            continue
+                        qq = env.q(Lm.x, Lm.units)
+                        fn = BIN[op][0]
+                        oc = env.outcome((lambda: fn(qq, unit)) if form == "Quantity.Unit" else (lambda: fn(unit, qq)))
+                        rec.count("unit_object_operands")
+                        env.judge(exp, oc, op, lo, ro,
+                                  {"expr": (f"{_show_opnd(env, Lm)} {op} ureg.Unit('{ln}')" if form == "Quantity.Unit"
+                                            else f"ureg.Unit('{ln}') {op} {_show_opnd(env, Lm)}"), "mode": env.mode},
+                                  extra={"form": form})
         rec.sample({"workload": "temperature", "mode": env.mode, "magnitudes": env.magkind,
                     "pair_sample": [str(v) if exact else v.tolist() for v in pairs[-1]]})
 
